@@ -117,6 +117,7 @@ type frame struct {
 	prev     *ssa.BasicBlock
 	pc       int
 	visits   map[int]int
+	forks    map[int]int // undecided branches taken per block (the loop bound counts these)
 	bind     ssa.Value // call instruction in the caller that receives the result
 	isDefer  bool
 	depth    int
@@ -170,6 +171,10 @@ func (s *state) clone() *state {
 		nf.visits = make(map[int]int, len(f.visits))
 		for k, v := range f.visits {
 			nf.visits[k] = v
+		}
+		nf.forks = make(map[int]int, len(f.forks))
+		for k, v := range f.forks {
+			nf.forks[k] = v
 		}
 		nf.defers = append([]*deferred(nil), f.defers...)
 		c.stack = append(c.stack, &nf)
@@ -249,6 +254,40 @@ func isStringish(t *Term) bool {
 			return b.Info()&types.IsString != 0
 		}
 		return false
+	}
+	// an element of a []string / [N]string
+	if (t.Op == "idx" || t.Op == "rangeval") && len(t.Args) == 2 && t.Args[0].Type != nil {
+		var el types.Type
+		switch u := t.Args[0].Type.Underlying().(type) {
+		case *types.Slice:
+			el = u.Elem()
+		case *types.Array:
+			el = u.Elem()
+		}
+		if el != nil {
+			if b, ok := el.Underlying().(*types.Basic); ok {
+				return b.Info()&types.IsString != 0
+			}
+		}
+		return false
+	}
+	// the i-th result of a call whose signature says string
+	if t.Op == "ret" && len(t.Args) == 1 && t.Args[0].Callee != nil {
+		if sig, ok := t.Args[0].Callee.Type().(*types.Signature); ok {
+			if i, ok := (&Term{Op: "const", Name: t.Name}).IntConst(); ok && int(i) < sig.Results().Len() {
+				if b, ok := sig.Results().At(int(i)).Type().Underlying().(*types.Basic); ok {
+					return b.Info()&types.IsString != 0
+				}
+			}
+		}
+		return false
+	}
+	if (t.Op == "call" || t.Op == "icall") && t.Callee != nil {
+		if sig, ok := t.Callee.Type().(*types.Signature); ok && sig.Results().Len() == 1 {
+			if b, ok := sig.Results().At(0).Type().Underlying().(*types.Basic); ok {
+				return b.Info()&types.IsString != 0
+			}
+		}
 	}
 	return t.IsCall(".Get", ".FormValue", ".PostFormValue")
 }
@@ -360,7 +399,7 @@ func isContext(t types.Type) bool {
 func (x *explorer) newFrame(st *state, fn *ssa.Function, params, free []*Term, depth int) *frame {
 	st.nFrame++
 	return &frame{fn: fn, id: st.nFrame, env: map[ssa.Value]*Term{}, params: params, free: free,
-		block: fn.Blocks[0], visits: map[int]int{0: 1}, depth: depth}
+		block: fn.Blocks[0], visits: map[int]int{0: 1}, forks: map[int]int{}, depth: depth}
 }
 
 func (x *explorer) emit(st *state, kind string, rets []*Term, pos token.Pos) {
@@ -442,7 +481,12 @@ func (x *explorer) exec(st *state) {
 				}
 				continue
 			}
-			// fork
+			// fork: counts against the loop bound of this block
+			fr.forks[fr.block.Index]++
+			if fr.forks[fr.block.Index] > x.cfg.MaxVisits {
+				x.out.Dropped++
+				return
+			}
 			var alive []*state
 			for _, pol := range []bool{false, true} {
 				var s2 *state
@@ -593,8 +637,11 @@ func (x *explorer) exec(st *state) {
 // jump moves fr to block to, resolving phis for the incoming edge. Returns
 // false when the loop bound cuts the path.
 func (x *explorer) jump(st *state, fr *frame, to *ssa.BasicBlock) bool {
+	// The loop bound (MaxVisits) counts *undecided* branches per block (see the If case): a loop
+	// whose trip count is decided by constants on the path (ranging over a literal table) is
+	// unrolled completely. A hard cap on plain visits stops runaway deterministic loops.
 	fr.visits[to.Index]++
-	if fr.visits[to.Index] > x.cfg.MaxVisits {
+	if fr.visits[to.Index] > 4*x.cfg.MaxVisits+4 {
 		x.out.Dropped++
 		return false
 	}
@@ -1020,6 +1067,9 @@ func (x *explorer) load(st *state, addr *Term, typ types.Type) *Term {
 		if sv := x.structOf(st, addr, typ, 0); sv != nil {
 			return sv
 		}
+		if av := x.arrayOf(st, addr, typ); av != nil {
+			return av
+		}
 		return mk("unknown", "uninit:"+addr.Name)
 	}
 	return mk("deref", "", addr)
@@ -1053,6 +1103,37 @@ func (x *explorer) structOf(st *state, addr *Term, typ types.Type, depth int) *T
 			v = &Term{Op: "field", Name: f.Name(), Args: []*Term{mk("unknown", "uninit:"+addr.Key())}, Type: f.Type()}
 		}
 		out.Args = append(out.Args, mk("fv", f.Name(), v))
+	}
+	return out
+}
+
+// arrayOf assembles the value of a small array-typed local cell from the
+// per-element stores ([...]T{a, b} is built element by element and then ranged
+// over or indexed as a value).
+func (x *explorer) arrayOf(st *state, addr *Term, typ types.Type) *Term {
+	if typ == nil {
+		return nil
+	}
+	a, ok := typ.Underlying().(*types.Array)
+	if !ok || a.Len() == 0 || a.Len() > 16 {
+		return nil
+	}
+	out := &Term{Op: "lit", Type: typ}
+	for i := int64(0); i < a.Len(); i++ {
+		ia := &Term{Op: "iaddr", Args: []*Term{addr, tInt(i)}, Type: types.NewPointer(a.Elem())}
+		v, ok := x.known(st, ia)
+		if !ok {
+			// elements that are structs (table rows) are assembled field by field
+			if _, isStruct := a.Elem().Underlying().(*types.Struct); isStruct {
+				v = x.structOf(st, ia, a.Elem(), 1)
+			} else {
+				v = zeroOf(a.Elem())
+			}
+		}
+		if v == nil {
+			v = mk("idx", "", mk("unknown", "uninit:"+addr.Key()), tInt(i))
+		}
+		out.Args = append(out.Args, v)
 	}
 	return out
 }
@@ -1272,6 +1353,20 @@ func intervalOf(facts []Fact, t *Term) (lo, hi *int64, has bool) {
 			has = true
 		}
 	}
+	// max(a, c) >= c and min(a, c) <= c for a constant operand c
+	if (t.Op == "call") && (t.Name == "max" || t.Name == "min") {
+		for _, a := range t.Args {
+			if c, ok := a.IntConst(); ok {
+				v := c
+				if t.Name == "max" && (lo == nil || *lo < v) {
+					lo, has = &v, true
+				}
+				if t.Name == "min" && (hi == nil || *hi > v) {
+					hi, has = &v, true
+				}
+			}
+		}
+	}
 	// t >= 0 together with t != 0 is t >= 1 (an "if len(x) == 0 { default }" guard)
 	if lo != nil && *lo == 0 {
 		for _, f := range facts {
@@ -1299,6 +1394,9 @@ func intervalOf(facts []Fact, t *Term) (lo, hi *int64, has bool) {
 }
 
 func litLen(t *Term) (int64, bool) {
+	if t.Op == "call" && t.Name == "len" && len(t.Args) == 1 && t.Args[0].Op == "nil" {
+		return 0, true
+	}
 	if t.Op == "call" && t.Name == "len" && len(t.Args) == 1 {
 		if t.Args[0].Op == "lit" {
 			return int64(len(t.Args[0].Args)), true
@@ -1486,6 +1584,22 @@ func (x *explorer) builtin(st *state, fr *frame, name string, args []*Term, inst
 	case "recover":
 		return tNil
 	case "min", "max":
+		// constants fold; otherwise the term keeps its operands so that intervalOf can bound it
+		allC := true
+		var best int64
+		for i, a := range args {
+			v, ok := a.IntConst()
+			if !ok {
+				allC = false
+				break
+			}
+			if i == 0 || name == "max" && v > best || name == "min" && v < best {
+				best = v
+			}
+		}
+		if allC && len(args) > 0 {
+			return tInt(best)
+		}
 		return call(name, args...)
 	}
 	x.event(st, fr, &Event{Kind: "call", Name: name, Args: args, Instr: instr})
@@ -1535,6 +1649,15 @@ func (x *explorer) opaque(st *state, fr *frame, name string, obj *types.Func, st
 				cells = a.Args
 			}
 			for _, cl := range cells {
+				// a field of a local struct passed by address (&verified.claims)
+				if cl.Op == "addr" && addrRoot(cl).Op == "cell" {
+					st.mem[cl.Key()] = &Term{Op: "out", Name: fmt.Sprintf("%d", i), Args: []*Term{t}}
+					for k := range st.mem {
+						if strings.HasPrefix(k, "addr:") && strings.HasSuffix(k, "("+cl.Key()+")") {
+							delete(st.mem, k)
+						}
+					}
+				}
 				if cl.Op == "cell" {
 					st.mem[cl.Key()] = &Term{Op: "out", Name: fmt.Sprintf("%d", i), Args: []*Term{t}}
 					// forget field-level bindings of the overwritten struct
